@@ -144,6 +144,8 @@ class ImageBatch(DataTensor):
                 grids = grids[0]
                 split_grids = []
                 tensor_indices_or_sections = args[1]
+                if isinstance(tensor_indices_or_sections, Tensor):
+                    tensor_indices_or_sections = tensor_indices_or_sections.tolist()
                 if isinstance(tensor_indices_or_sections, int):
                     sections = tensor_indices_or_sections
                     start = 0
